@@ -730,6 +730,9 @@ pub struct RunOut {
     pub sample: Option<serde_json::Value>,
     pub tape: crate::tape::TapeData,
     pub trace_tail: Vec<String>,
+    /// tape to use for the determinism recheck when `tape` is not the tape of this whole run
+    /// (cut-point sweeps return the tape of the first failing cut)
+    pub recheck_tape: Option<crate::tape::TapeData>,
 }
 
 pub fn fnv(h: &mut u64, bytes: &[u8]) {
@@ -1228,6 +1231,7 @@ pub fn run_t1(profile: &T1Profile, tape: Tape, opts: &T1Opts) -> RunOut {
         sample,
         tape: tape.recorded(),
         trace_tail,
+        recheck_tape: None,
     }
 }
 
@@ -1724,6 +1728,7 @@ pub fn run_t1_sweep(profile: &T1Profile, tape: Tape, want_sample: bool, quick: b
     let mut total_steps = reference.steps;
     let mut states: std::collections::BTreeSet<u64> = reference.states.iter().copied().collect();
     let ncuts = cuts.len();
+    let mut sweep_hash: u64 = reference.log_hash;
     for (k, side, at) in cuts {
         // same tape, fault lane selects this one cut
         let mut td = ref_tape.clone();
@@ -1736,6 +1741,7 @@ pub fn run_t1_sweep(profile: &T1Profile, tape: Tape, want_sample: bool, quick: b
         let out = run_t1(profile, sub, &T1Opts { want_sample: false, keep_log: false, fault_override: Some(make_cut(k, side, at)) });
         faults.merge(&out.faults);
         total_steps += out.steps;
+        fnv(&mut sweep_hash, &out.log_hash.to_le_bytes());
         for s in &out.states {
             states.insert(*s);
         }
@@ -1755,6 +1761,9 @@ pub fn run_t1_sweep(profile: &T1Profile, tape: Tape, want_sample: bool, quick: b
     reference.states = states.into_iter().collect();
     reference.probes.insert("cut_points_swept", ncuts as u64);
     // a violation is replayed with the tape of the first failing cut
+    reference.recheck_tape = Some(ref_tape.clone());
+    // the log hash of a sweep covers every sub-run
+    reference.log_hash = sweep_hash;
     reference.tape = first_bad_tape.unwrap_or(ref_tape);
     if let Some(s) = reference.sample.as_mut() {
         s["cut_points_swept"] = serde_json::json!(ncuts);
